@@ -253,6 +253,10 @@ func c09Close(r *R) {
 						if mc, ok := ev.C.Value.(*ssa.MakeClosure); ok && mc.Fn == sendSites[0].Parent() {
 							sent = true
 						}
+						// (or the goroutine runs a method that sends it)
+						if sc := ev.C.StaticCallee(); sc != nil && core.Unwrap(sc) == sendSites[0].Parent() {
+							sent = true
+						}
 					}
 				}
 			}
